@@ -73,7 +73,14 @@ func GenRefGraph(t *rapid.T, label string) *GraphCase {
 			if len(leaves) > 1 && rapid.Bool().Draw(t, l+"LeafOrRef") {
 				l2 := rapid.SampledFrom(leaves).Draw(t, l+"Leaf2")
 				if l2 != ln {
-					return &ref.SNode{Kind: ref.SLit, Lit: ref.KNumber, Tok: "1", Rules: []ref.SRule{{Name: "or", ValKind: ref.RVOr, Or: []ref.OrItem{{Name: ln}, {Name: l2}}}}}
+					items := []ref.OrItem{{Name: ln}, {Name: l2}}
+					switch rapid.IntRange(0, 3).Draw(t, l+"LeafRuleSet") {
+					case 0: // a member written as a rule set with a second rule: still a reference to the type
+						items[0] = ref.OrItem{Rules: []ref.SRule{StrRule("type", ln), BoolRule("nullable", true)}}
+					case 1:
+						items[1] = ref.OrItem{Rules: []ref.SRule{BoolRule("nullable", false), StrRule("type", l2)}}
+					}
+					return &ref.SNode{Kind: ref.SLit, Lit: ref.KNumber, Tok: "1", Rules: []ref.SRule{{Name: "or", ValKind: ref.RVOr, Or: items}}}
 				}
 			}
 			return &ref.SNode{Kind: ref.SLit, Lit: ref.KNumber, Tok: "1", Rules: []ref.SRule{StrRule("type", ln)}}
@@ -165,7 +172,11 @@ func GenRefGraph(t *rapid.T, label string) *GraphCase {
 				// next to the terminating member (@ka = @ka | @k)
 				ka := fmt.Sprintf("@ka%d", keyTypes)
 				al := &ref.SNode{Kind: ref.SRef, Names: []string{kn}}
-				switch rapid.IntRange(0, 3).Draw(t, fmt.Sprint(label, "KSAliasForm", i)) {
+				switch rapid.IntRange(0, 5).Draw(t, fmt.Sprint(label, "KSAliasForm", i)) {
+				case 4: // the alias names a type that was never added
+					al.Names = []string{"@kmissing"}
+				case 5:
+					al.Names = []string{kn, "@kmissing"}
 				case 1:
 					al.Names = []string{ka, kn}
 				case 2:
